@@ -265,6 +265,8 @@ FmtC(e, pre, post) ==
                  /\ (e.a.py.hasansi = 1) = p.hasansi /\ e.a.py.ansi = p.ansi)
       claim == p.valid /\ ~p.sf.ambiguous /\ e.a.ansi_ok = 1 /\ e.a.how # "fstr"
   IN Cl("audit.fmt_parse", TRUE, same)
+  \* format(s, spec) / to_str(spec) never changes s (whatever the outcome): no update of the receiver is logged
+  \o Cl("C12.format_never_changes_receiver", HasStyle(v), \A i \in DOMAIN e.upd : e.upd[i][1] # e.r)
   \o Cl("C12.format_invalid_raises", ~p.valid /\ e.a.how # "fstr", (~p.valid /\ e.a.how # "fstr") => e.out = "raise:ValueError")
   \o Cl("C12.format_defined", claim, claim => e.out = "ok")
   \o IF e.out # "ok" \/ ~claim \/ e.a.has_twin # 1 \/ Len(e.res) # 1 THEN None ELSE
